@@ -226,9 +226,16 @@ def streams(rng, tier):
                 rule="dec skip on chains of 10^5 / 10^6 (thorough 4*10^6) tags, definite / indefinite arrays and maps, mixed; whole and cut before the bottom: an answer (no stack overflow), the model's")
     s8.shrinkable = False
     yield s8
+    # the typed iterators behind the Iterator adaptors (an overriding nth / size_hint computes with declared lengths: the harness is
+    # built with overflow checks, so arithmetic that would wrap in a release build and panic in a debug build panics here)
+    from verifkit.props import C04
+    yield C04.iter_stream(rng, tier)
 
 
 def replay_streams(rp):
     op = rp["original_op"]
+    if op.startswith("aiter"):
+        from verifkit.props import C04
+        return C04.replay_streams(rp)
     j = {"dec": judge_acc, "tdecm": judge_tdecm, "seq": judge_seq, "dropcount": judge_drop}.get(op.split(" ")[0])
     return [Stream("replay", "hcore", [op], model_ops=[rp.get("model_op") or op], judge=j)]
